@@ -77,7 +77,7 @@ theorem prog_onTransaction {e : Env} {as : State} {i : Nat} {w : W} (h : Good e 
         rw [if_neg hcb]
         rw [hok (by simpa using hcb)]
         have g2 := good_extendTimer g1 2
-        obtain ⟨f1, f2, f3, f4, f5, f6, f7, f8, f9, f10, f11, _⟩ := extendTimer_fields e w1 2
+        obtain ⟨f1, f2, f3, f4, f5, f6, f7, f8, f9, f10, f11, _, _⟩ := extendTimer_fields e w1 2
         obtain ⟨hbi, hview, hgp, hgc⟩ := h.synced hbp
         have hngp : ¬ ∃ b ∈ (as.nodes i).myPreps, b.h = (extendTimer e w1 2).nd.bi ∧ b.v = (extendTimer e w1 2).nd.view := by
           rw [f7, f8, bi1, v1]
